@@ -26,7 +26,7 @@ ASSUMPTIONS = [
     "userdata/regex/most IO primitives and unpack_and_call are not under contract; of call_thunk_top only the error closure, of return_future only the statements after the future is ready (toplevel unit: Context/Stack projected on frame list + lock flag, reset_stack's contract assumed there and proved in the stack unit)",
     "termination not proved by Kani",
 ]
-NOT_UNDER_CONTRACT = ["primitives taking arrays, userdata, IO, regex, random", "api::function::unpack_and_call", "the callers of call_thunk_top (which entry point a host API uses)", "memory reclaim after failure"]
+NOT_UNDER_CONTRACT = ["primitives taking arrays, userdata, IO, regex, random", "api::function::unpack_and_call and the macro-generated Function::call / call_first (same text as call_any_first, which IS under contract), the Pending path of call_async", "the callers of call_thunk_top (which entry point a host API uses)", "memory reclaim after failure"]
 
 # entries whose callee CBMC cannot model (libm / float formatting / parsing loops); reported as skipped
 SKIP = {
@@ -232,6 +232,10 @@ STATIC = [
          clause="whatever kind of error ends a top-level evaluation, the frames above the level recorded before it are removed (or reset_stack itself gave up); the evaluation's own error is reported, a panic with its stack trace"),
     dict(engine="verus", unit="toplevel", function="execute_io_top::on_error", name="C06/thread/execute_io_top_on_error", source="vm/src/thread.rs::ThreadInternal::execute_io_top (body of the or_else closure)",
          clause="the same guarantee for the IO entry point: whatever kind of error ends a top-level IO action, the frames above the recorded level are removed"),
+    dict(engine="verus", unit="toplevel", function="reset_after_error", name="C06/thread/reset_after_error", source="vm/src/thread.rs::reset_after_error",
+         clause="the helper used by host calls: frames above the recorded level removed (or reset_stack gave up), the call's own error reported"),
+    dict(engine="verus", unit="toplevel", function="call_any_first::after_call", name="C06/api/call_any_first_after_call", source="vm/src/api/function.rs::Function::call_any_first (from the call of the interpreter to the end; Function::call is generated from the same text by make_vm_function!)",
+         clause="a failed call of a gluon function from the host is reported with the error that went through the stack reset at the level recorded before the call, never the raw error with the failed call's frames left behind"),
     dict(engine="verus", unit="toplevel", function="return_future::ready", name="C06/thread/return_future_ready", source="vm/src/thread.rs::Context::return_future (poll closure, statements after the future is ready)",
          clause="the frame of an asynchronous primitive is unlocked on every path, also when pushing its (error) result fails, so that the error propagates and the stack can be reset"),
     v("stack", "reset_stack", "resetting the stack after a failed evaluation removes exactly the frames above `level`, top first, never one below it, and touches nothing else of the frame list", "vm/src/thread.rs::reset_stack"),
